@@ -26,12 +26,33 @@ use wasm_bindgen::prelude::wasm_bindgen;
 
 struct Bundler {
     pub files: HashMap<BffFileName, Rc<ParsedModule>>,
+    // What the import specifiers of every cached module resolved to when it was parsed: the
+    // resolution is frozen into the module, so it is checked again before every build.
+    pub resolutions: HashMap<BffFileName, Vec<(String, Option<BffFileName>)>>,
 }
 
 impl Bundler {
     pub fn new() -> Bundler {
         Bundler {
             files: HashMap::new(),
+            resolutions: HashMap::new(),
+        }
+    }
+
+    /// Forget the cached modules whose imports resolve differently now (a file they import was
+    /// created, deleted, or started / stopped shadowing another one since they were parsed).
+    fn drop_modules_with_stale_imports(&mut self) {
+        let mut cached: Vec<BffFileName> = self.resolutions.keys().cloned().collect();
+        cached.sort();
+        for file in cached {
+            let stale = self.resolutions[&file].iter().any(|(specifier, resolved)| {
+                resolve_import(file.to_string().as_str(), specifier).map(BffFileName::new)
+                    != *resolved
+            });
+            if stale {
+                self.files.remove(&file);
+                self.resolutions.remove(&file);
+            }
         }
     }
 }
@@ -96,6 +117,7 @@ fn parse_entrypoints(parser_entry_point: &str, settings: &str) -> EntryPoints {
 }
 struct LazyFileManager<'a> {
     pub files: &'a mut HashMap<BffFileName, Rc<ParsedModule>>,
+    pub resolutions: &'a mut HashMap<BffFileName, Vec<(String, Option<BffFileName>)>>,
 }
 
 impl FileManager for LazyFileManager<'_> {
@@ -110,6 +132,8 @@ impl FileManager for LazyFileManager<'_> {
         match res {
             Ok(f) => {
                 self.files.insert(file_name.clone(), f.clone());
+                self.resolutions
+                    .insert(file_name.clone(), resolver.into_resolutions());
                 Some(f)
             }
             Err(err) => {
@@ -137,8 +161,11 @@ fn run_extraction(entry: EntryPoints) -> ParserExtractResult {
     GLOBALS.set(&SWC_GLOBALS, || {
         BUNDLER.with(|b| {
             let mut b = b.borrow_mut();
+            b.drop_modules_with_stale_imports();
+            let b = &mut *b;
             let mut man = LazyFileManager {
                 files: &mut b.files,
+                resolutions: &mut b.resolutions,
             };
 
             // res.self_check_sem_types();
@@ -171,12 +198,13 @@ fn update_file_content_inner(file_name: &str, content: &str) {
     let file_name = BffFileName::new(file_name.to_string());
     let res = GLOBALS.set(&SWC_GLOBALS, || {
         let mut resolver = WasmModuleResolver::new();
-        parse_and_bind(&mut resolver, &file_name, content)
+        parse_and_bind(&mut resolver, &file_name, content).map(|f| (f, resolver.into_resolutions()))
     });
     BUNDLER.with(|b| {
         let mut b = b.borrow_mut();
         match res {
-            Ok(f) => {
+            Ok((f, resolutions)) => {
+                b.resolutions.insert(file_name.clone(), resolutions);
                 b.files.insert(file_name, f);
             }
             // The new content does not parse: forget the previous version, so that the next
@@ -184,6 +212,7 @@ fn update_file_content_inner(file_name: &str, content: &str) {
             // instead of silently compiling the stale module.
             Err(_) => {
                 b.files.remove(&file_name);
+                b.resolutions.remove(&file_name);
             }
         }
     })
